@@ -44,6 +44,54 @@ def report(ok, **args):
     return ok
 
 
+# ------------------------------------------------------------------------------------------------ symbolic text from code points
+# Probed: a symbolic `str` argument has a symbolic length, and every index operation on text derived from it costs a solver
+# call; a page-sized equality then needs minutes per path. A string built as chr(c0)+chr(c1)+... from symbolic *ints* has a
+# concrete length: the same obligation is confirmed in seconds. So harnesses take code points and build their texts here.
+def cp_ok(c):
+    """any code point. (Lone surrogates cannot come out of a UTF-8 file, but excluding them as a disjunction doubles the
+    path count per character; the functions under test treat them like any other character, so they are simply included.)"""
+    return 0 <= c <= 0x10FFFF
+
+
+def cps_ok(cs, bad=()):
+    for c in cs:
+        if not cp_ok(c):
+            return False
+        for b in bad:
+            if c == b:
+                return False
+    return True
+
+
+def S(cs):
+    s = ""
+    for c in cs:
+        s = s + chr(c)
+    return s
+
+
+class Pieces:
+    """hands out consecutive pieces of a tuple of code points"""
+    def __init__(self, cps):
+        self.cps = cps
+        self.i = 0
+
+    def take(self, n):
+        s = S(self.cps[self.i:self.i + n])
+        self.i += n
+        return s
+
+    def raw(self, n):
+        r = self.cps[self.i:self.i + n]
+        self.i += n
+        return r
+
+
+NL, CR, TAB, SP, QUOTE, BSLASH = 10, 13, 9, 32, 34, 92
+PLAINBAD = (32, 9, 10, 13, 40, 41, 35, 34, 92)      # space tab LF CR ( ) # " backslash
+
+
 # ------------------------------------------------------------------------------------------------ tree builder
 from antlr4.Token import CommonToken
 from antlr4.tree.Tree import TerminalNodeImpl
@@ -188,3 +236,25 @@ def shim_re(mode="real"):
 def quiet_logging():
     import logging
     logging.disable(logging.CRITICAL)
+
+
+class _TextwrapShim:
+    """textwrap.dedent is called by OptionDocumentation.process on a constant; under tracing its regexes take ~minutes per path.
+    The genuine function is run outside tracing (its argument is concrete; a symbolic one is realised, which is sound but slow)."""
+    def __getattr__(self, n):
+        import textwrap
+        return getattr(textwrap, n)
+
+    @staticmethod
+    def dedent(text):
+        import textwrap
+        with NoTracing():
+            return textwrap.dedent(deep_realize(text))
+
+
+def fast_textwrap():
+    import cminx.documentation_types as dt
+    dt.textwrap = _TextwrapShim()
+
+
+fast_textwrap()
